@@ -37,6 +37,17 @@ impl Potential for LJShape2 {
             .map(|(s, o)| s.energy(o))
             .sum()
     }
+
+    fn interaction_range(&self) -> Option<f64> {
+        // Only when every particle has a cutoff is there a limit to the range of the interaction
+        let mut cutoff: f64 = 0.;
+        let mut radius: f64 = 0.;
+        for particle in self.items.iter() {
+            cutoff = cutoff.max(particle.cutoff?);
+            radius = radius.max(distance(&Point2::origin(), &particle.position));
+        }
+        Some(cutoff + 2. * radius)
+    }
 }
 
 impl Shape for LJShape2 {
